@@ -95,7 +95,7 @@ def finish(res: Result, seed: int = 0, stats: Optional[dict] = None, quiet=False
     """Print the verdict lines, write evidence + replay files, return the exit code."""
     from .srcmodel import AnalysisError
     for rule, matched, floor in res.floors:
-        if matched < floor:
+        if matched < floor and not res.violated():
             raise AnalysisError(f"vacuity guard: rule {rule} matched {matched} instance(s), "
                                 f"{floor} were confirmed by hand on the pinned tree")
     known = load_known()
